@@ -367,7 +367,8 @@ def coq_examples(names):
     if "fwait" in names:
         out.append("Definition id_fwait : Z := %d." % names.index("fwait"))
         out.append("(* the one-instruction reading of bytes that start with 9B is FWAIT alone, one byte long (X86JudgeProofs.denote_9b_is_bucket_9b) *)")
-        out.append("Lemma db_bucket_9b : forallb (fun r => negb ((r_map r =? 0) && (r_kind r =? 0)) || ((r_name r =? id_fwait) && plain_op_row r)) (bucket 155) = true.\nProof. vm_compute. reflexivity. Qed.\n")
+        out.append("Lemma ex_fwait_alone : map (fun c => match c with (_, _, _, len) => len end) (denote2 bucket wbucket M32 [155]) = [1%nat] /\\\n  map (fun c => match c with (_, _, _, len) => len end) (denote2 bucket wbucket M32 [155; 221; 56]) = [1%nat; 3%nat].\nProof. vm_compute. split; reflexivity. Qed.\n")
+        out.append("Lemma db_bucket_9b : forallb (fun r => negb ((r_map r =? 0) && (r_kind r =? 0)) || ((r_name r =? id_fwait) && plain_op_row r)) (bucket 155) = true.\nProof. vm_cast_no_check (eq_refl true). Qed.\n")
     return "\n".join(out)
 
 
@@ -422,14 +423,14 @@ def coq_text(rows, names=None):
     out.append("Definition row_of (i : Z) : option row :=\n %s." % tree(0, len(ids), "  "))
     out.append("")
     out.append("(* well-formedness of the database, checked by the kernel on every regeneration *)")
-    out.append("Lemma db_wf : forallb row_wf db_rows = true.\nProof. vm_compute. reflexivity. Qed.\n")
-    out.append("Lemma db_bucket_ok : forallb (fun r => existsb (fun r' => r_id r' =? r_id r) (bucket (r_opc r))) db_rows = true.\nProof. vm_compute. reflexivity. Qed.\n")
-    out.append("Lemma db_row_of_ok : forallb (fun r => match row_of (r_id r) with Some r' => r_id r' =? r_id r | None => false end) db_rows = true.\nProof. vm_compute. reflexivity. Qed.\n")
-    out.append("Lemma db_bucket_sound : forallb (fun o => forallb (fun r => bucket_row_ok o r) (bucket o)) (zrange256) = true.\nProof. vm_compute. reflexivity. Qed.\n")
-    out.append("Lemma db_wait_wf : forallb row_wf db_wait_rows = true.\nProof. vm_compute. reflexivity. Qed.\n")
-    out.append("Lemma db_wait_bucket_ok : forallb (fun r => existsb (fun r' => r_id r' =? r_id r) (wbucket (r_opc r))) db_wait_rows = true.\nProof. vm_compute. reflexivity. Qed.\n")
-    out.append("Lemma db_wait_row_of_ok : forallb (fun r => match row_of (r_id r) with Some r' => r_id r' =? r_id r | None => false end) db_wait_rows = true.\nProof. vm_compute. reflexivity. Qed.\n")
-    out.append("Lemma db_wait_bucket_sound : forallb (fun o => forallb (fun r => bucket_row_ok o r && existsb (fun r' => r_id r' =? r_id r) db_wait_rows) (wbucket o)) (zrange256) = true.\nProof. vm_compute. reflexivity. Qed.\n")
+    out.append("Lemma db_wf : forallb row_wf db_rows = true.\nProof. vm_cast_no_check (eq_refl true). Qed.\n")
+    out.append("Lemma db_bucket_ok : forallb (fun r => existsb (fun r' => r_id r' =? r_id r) (bucket (r_opc r))) db_rows = true.\nProof. vm_cast_no_check (eq_refl true). Qed.\n")
+    out.append("Lemma db_row_of_ok : forallb (fun r => match row_of (r_id r) with Some r' => r_id r' =? r_id r | None => false end) db_rows = true.\nProof. vm_cast_no_check (eq_refl true). Qed.\n")
+    out.append("Lemma db_bucket_sound : forallb (fun o => forallb (fun r => bucket_row_ok o r) (bucket o)) (zrange256) = true.\nProof. vm_cast_no_check (eq_refl true). Qed.\n")
+    out.append("Lemma db_wait_wf : forallb row_wf db_wait_rows = true.\nProof. vm_cast_no_check (eq_refl true). Qed.\n")
+    out.append("Lemma db_wait_bucket_ok : forallb (fun r => existsb (fun r' => r_id r' =? r_id r) (wbucket (r_opc r))) db_wait_rows = true.\nProof. vm_cast_no_check (eq_refl true). Qed.\n")
+    out.append("Lemma db_wait_row_of_ok : forallb (fun r => match row_of (r_id r) with Some r' => r_id r' =? r_id r | None => false end) db_wait_rows = true.\nProof. vm_cast_no_check (eq_refl true). Qed.\n")
+    out.append("Lemma db_wait_bucket_sound : forallb (fun o => forallb (fun r => bucket_row_ok o r && existsb (fun r' => r_id r' =? r_id r) db_wait_rows) (wbucket o)) (zrange256) = true.\nProof. vm_cast_no_check (eq_refl true). Qed.\n")
     out.append("Definition db_count : Z := %d.\nLemma db_count_ok : Z.of_nat (length db_rows) = db_count.\nProof. vm_compute. reflexivity. Qed.\n" % len(sup))
     if names:
         nid = {n: i for i, n in enumerate(names)}
@@ -444,7 +445,7 @@ def coq_text(rows, names=None):
         out.append("(* reviewed mnemonic aliases (corpus/C01_db_alias.txt) and known ambiguities of the database (corpus/C01_db_ambiguous.txt, findings) *)")
         out.append("Definition db_aliases : list (Z * Z) := [%s].\n" % "; ".join("(%d, %d)" % p for p in pairs))
         out.append("(* uniqueness: rows of one opcode bucket that can accept the same bytes (X86Unique.may_overlap) name the same mnemonic or a listed pair *)")
-        out.append("Lemma db_unique_raw : forallb (fun o => bucket_unique db_aliases (bucket_raw o)) (zrange 256) = true.\nProof. vm_compute. reflexivity. Qed.\n")
+        out.append("Lemma db_unique_raw : forallb (fun o => bucket_unique db_aliases (bucket_raw o)) (zrange 256) = true.\nProof. vm_cast_no_check (eq_refl true). Qed.\n")
         out.append("Lemma db_unique : forall o, bucket_unique db_aliases (bucket o) = true.\nProof. exact (guarded_all bucket_raw db_aliases db_unique_raw). Qed.\n")
         exs = []
         pth = os.path.join(vlib.VERIF, "corpus", "C01_same_ops_exceptions.txt")
@@ -455,15 +456,18 @@ def coq_text(rows, names=None):
                     exs.append(nid[l[0]])
         out.append("(* same-mnemonic rows that may overlap (X86Unique.may_overlap and extra_overlap) have equal operand specifications, except the reviewed mnemonics of corpus/C01_same_ops_exceptions.txt *)")
         out.append("Definition db_same_ops_exceptions : list Z := [%s]." % "; ".join(str(x) for x in exs))
-        out.append("Lemma db_same_ops_raw : forallb (fun o => bucket_same_ops db_same_ops_exceptions (bucket_raw o)) (zrange 256) = true.\nProof. vm_compute. reflexivity. Qed.\n")
+        out.append("Lemma db_same_ops_raw : forallb (fun o => bucket_same_ops db_same_ops_exceptions (bucket_raw o)) (zrange 256) = true.\nProof. vm_cast_no_check (eq_refl true). Qed.\n")
         out.append("Lemma db_same_ops : forall o, bucket_same_ops db_same_ops_exceptions (bucket o) = true.\nProof. exact (guarded_same_ops bucket_raw db_same_ops_exceptions db_same_ops_raw). Qed.\n")
-        out.append("Lemma db_wait_same_ops_raw : forallb (fun o => bucket_same_ops db_same_ops_exceptions (wbucket_raw o)) (zrange 256) = true.\nProof. vm_compute. reflexivity. Qed.\n")
-        out.append("Lemma db_wait_unique_raw : forallb (fun o => bucket_unique db_aliases (wbucket_raw o)) (zrange 256) = true.\nProof. vm_compute. reflexivity. Qed.\n")
+        out.append("(* non-vacuity: some same-mnemonic pair passes both overlap relations (and has equal operand specifications); some same-mnemonic pair passes the old relation but not the sharper one (the 128/256/512-bit EVEX variants) *)")
+        out.append("Definition same_name_pair (f : row -> row -> bool) : bool :=\n  existsb (fun o => existsb (fun r1 => existsb (fun r2 => (r_id r1 <? r_id r2) && (r_name r1 =? r_name r2) && f r1 r2) (bucket_raw o)) (bucket_raw o)) (zrange 256).")
+        out.append("Lemma db_same_ops_nonvacuous :\n  same_name_pair (fun r1 r2 => may_overlap r1 r2 && extra_overlap r1 r2 && ops_eqb (r_ops r1) (r_ops r2)) &&\n  same_name_pair (fun r1 r2 => may_overlap r1 r2 && negb (extra_overlap r1 r2) && negb (ops_eqb (r_ops r1) (r_ops r2))) = true.\nProof. vm_cast_no_check (eq_refl true). Qed.\n")
+        out.append("Lemma db_wait_same_ops_raw : forallb (fun o => bucket_same_ops db_same_ops_exceptions (wbucket_raw o)) (zrange 256) = true.\nProof. vm_cast_no_check (eq_refl true). Qed.\n")
+        out.append("Lemma db_wait_unique_raw : forallb (fun o => bucket_unique db_aliases (wbucket_raw o)) (zrange 256) = true.\nProof. vm_cast_no_check (eq_refl true). Qed.\n")
         out.append("Lemma db_wait_unique : forall o, bucket_unique db_aliases (wbucket o) = true.\nProof. exact (guarded_all wbucket_raw db_aliases db_wait_unique_raw). Qed.\n")
-        out.append("Lemma db_wait_bucket_row_of_raw : forallb (fun o => bucket_row_of_ok row_of (wbucket_raw o)) (zrange 256) = true.\nProof. vm_compute. reflexivity. Qed.\n")
+        out.append("Lemma db_wait_bucket_row_of_raw : forallb (fun o => bucket_row_of_ok row_of (wbucket_raw o)) (zrange 256) = true.\nProof. vm_cast_no_check (eq_refl true). Qed.\n")
         out.append("Lemma db_wait_bucket_row_of : forall o, bucket_row_of_ok row_of (wbucket o) = true.\nProof. exact (guarded_row_of wbucket_raw row_of db_wait_bucket_row_of_raw). Qed.\n")
         out.append("(* the row the judge looks up by id reads names and decorations like the bucket's row of that id *)")
-        out.append("Lemma db_bucket_row_of_raw : forallb (fun o => bucket_row_of_ok row_of (bucket_raw o)) (zrange 256) = true.\nProof. vm_compute. reflexivity. Qed.\n")
+        out.append("Lemma db_bucket_row_of_raw : forallb (fun o => bucket_row_of_ok row_of (bucket_raw o)) (zrange 256) = true.\nProof. vm_cast_no_check (eq_refl true). Qed.\n")
         out.append("Lemma db_bucket_row_of : forall o, bucket_row_of_ok row_of (bucket o) = true.\nProof. exact (guarded_row_of bucket_raw row_of db_bucket_row_of_raw). Qed.\n")
         out.append(coq_examples(names))
     return "\n".join(out) + "\n"
